@@ -3,6 +3,7 @@
 import json, sys
 pid = sys.argv[1]
 variant = sys.argv[2] if len(sys.argv) > 2 else "a"
+avoid = sys.argv[3] if len(sys.argv) > 3 else ""
 props = {json.loads(l)["id"]: json.loads(l) for l in open("/verif/properties.jsonl") if l.strip()}
 p = props[pid]
 wt = "/tmp/mut-%s%s" % (pid, variant)
@@ -24,7 +25,7 @@ Your task: make ONE realistic change to the siglens source code (in your worktre
   2. the breakage needs something specific to manifest — a particular interleaving, a crash or fault at a particular point, a multi-step sequence of operations, an unusual input, or two cooperating sites that each look fine alone — NOT something that any ordinary use would expose at once (so not "return nothing from every search");
   3. you provide a demonstration: a Go test file (or small program) placed inside the worktree that FAILS with your change and PASSES without it (on the unmodified HEAD). It should exercise siglens through its real code paths (ingest / flush / rotate / query APIs, handlers, codecs ...), not just call the one function you edited with a hand-made argument if you can avoid it.
 
-Variant hint for diversity: this is variant "{variant}" — {"prefer a change in the write/ingest/persistence side" if variant == "a" else "prefer a change in the read/query/recovery side or in a rarely taken branch"}.
+Variant hint for diversity: this is variant "{variant}" — {"prefer a change in the write/ingest/persistence side" if variant == "a" else "prefer a change in the read/query/recovery side or in a rarely taken branch"}.{(" Other people already produced changes in these places, so choose a different one: " + avoid + ".") if avoid else ""}
 
 Deliver into the directory {out}/ (create it):
   - patch.diff   : `git diff` of your source change only (without the demonstration), applicable to /repo HEAD with `git apply`
